@@ -47,6 +47,7 @@ type FuncContract struct {
 	Trusted   bool // contract is assumed, body not verified (dependency or declared trusted)
 	Pure      bool // modifies nothing (heap and ghost)
 	Allocates bool // pure but returns freshly allocated objects
+	Deterministic bool // results are a function of the argument values only (no state read)
 	Blocks    bool // may suspend the caller: shared ghost state is weakened
 	Sweep     bool // safety obligations only (zero annotation)
 	SweepTags []string
@@ -115,7 +116,7 @@ var clauseKeywords = map[string]bool{
 	"func": true, "requires": true, "ensures": true, "modifies": true, "pure": true, "trusted": true,
 	"loop": true, "site": true, "ghost": true, "nonnil": true, "nilable": true, "fields_copied": true,
 	"sweep": true, "package": true, "axiom": true, "allow": true, "witness": true, "nosafety": true,
-	"deferrule": true, "skipfield": true, "preserves": true, "typeinv": true, "updates": true, "init": true, "nosite": true, "blocks": true, "define": true, "fnspec": true, "result": true, "param": true, "implements": true,
+	"deferrule": true, "skipfield": true, "preserves": true, "typeinv": true, "updates": true, "deterministic": true, "init": true, "nosite": true, "blocks": true, "define": true, "fnspec": true, "result": true, "param": true, "implements": true,
 }
 
 // LoadContracts reads //@ clauses from zz_contracts_verif.go files under repo and *.gvc files under depsDir.
@@ -214,7 +215,12 @@ func (cs *Contracts) parseFile(path, pkg string, external bool) error {
 			body = strings.TrimSpace(strings.TrimPrefix(line, "//@"))
 		}
 		if i := strings.Index(body, " -- "); i >= 0 {
-			body = strings.TrimSpace(body[:i])
+			// a trailing tag list after the comment still belongs to the clause
+			tagPart := ""
+			if m := tagRe.FindString(body); m != "" && strings.Index(body, m) > i {
+				tagPart = " " + strings.TrimSpace(m)
+			}
+			body = strings.TrimSpace(body[:i]) + tagPart
 		}
 		if body == "" {
 			continue
@@ -424,6 +430,11 @@ func (cs *Contracts) parseFile(path, pkg string, external bool) error {
 				return fail("blocks outside func")
 			}
 			cur.Blocks = true
+		case "deterministic":
+			if cur == nil {
+				return fail("deterministic outside func")
+			}
+			cur.Deterministic = true
 		case "trusted":
 			if cur == nil {
 				return fail("trusted outside func")
